@@ -178,7 +178,7 @@ func runC15(c *hc.Ctx) error {
 	}
 
 	seen := map[string]bool{}
-	tilesPerMatrix := c.N(5, 40)
+	tilesPerMatrix := c.N(2, 40)
 	if c.Search {
 		tilesPerMatrix *= 6
 	}
@@ -208,7 +208,7 @@ func runC15(c *hc.Ctx) error {
 				continue
 			}
 			for _, flip := range []int{0, 1, 2} {
-				if flip != 0 && c.Quick() && c.Rng.Intn(3) != 0 {
+				if flip != 0 && c.Quick() && c.Rng.Intn(4) != 0 {
 					continue
 				}
 				t := cloneSet(s.set)
@@ -297,8 +297,12 @@ func runC15(c *hc.Ctx) error {
 					m2 := big.NewRat(2, 1000000)
 					fr := [][2]*big.Rat{{big.NewRat(1, 2), big.NewRat(1, 2)}, {m2, m2}, {rsub(ri(1), m2), rsub(ri(1), m2)}, {m2, rsub(ri(1), m2)},
 						{big.NewRat(c.Rng.Int63n(999998)+1, 1000000), big.NewRat(c.Rng.Int63n(999998)+1, 1000000)}}
-					if ti >= 4 && c.Quick() {
-						fr = fr[3:]
+					if c.Quick() {
+						if ti >= 4 {
+							fr = fr[3:]
+						} else {
+							fr = fr[1:4]
+						}
 					}
 					for _, f := range fr {
 						px := radd(cx, rmul(f[0], tsx))
@@ -353,7 +357,12 @@ func runC15(c *hc.Ctx) error {
 				right := radd(gx0, rmul(ri(e.w), tsx))
 				midx := radd(gx0, rmul(big.NewRat(1, 2), rmul(ri(e.w), tsx)))
 				midy := radd(bottom, rmul(big.NewRat(1, 2), rmul(ri(e.h), tsy)))
-				for _, d := range []*big.Rat{big.NewRat(2, 1000000), ri(1)} {
+				dists := []*big.Rat{big.NewRat(2, 1000000), ri(1)}
+				if c.Quick() {
+					k := c.Rng.Intn(2)
+					dists = dists[k : k+1]
+				}
+				for _, d := range dists {
 					outs := [][2]*big.Rat{
 						{rsub(gx0, rmul(d, tsx)), midy}, {radd(right, rmul(d, tsx)), midy},
 						{midx, radd(top, rmul(d, tsy))}, {midx, rsub(bottom, rmul(d, tsy))},
